@@ -343,7 +343,7 @@ def scenario_search(chk, n_cases):
     from scipy.linalg import expm
     rng = chk.rng
     for it in range(n_cases):
-        d = rng.choice([2, 2, 3])
+        d = rng.choice([2, 2, 3]) if it != 2 else 3
         T = rng.choice([0.0, 0.4])
         wm, gm = rng.choice([1.0, 1.7, 2.4]), rng.choice([0.15, 0.3])
         nf = 12
@@ -361,10 +361,27 @@ def scenario_search(chk, n_cases):
         H0, H1 = (a0 + a0.conj().T) / 3, (a1 + a1.conj().T) / 4
         tdep = rng.random() < 0.6
         diss = rng.random() < 0.6
+        hkind = "generic"
+        if it in (1, 2) or (not tdep and rng.random() < 0.4):
+            # every run: a time-independent System whose Hamiltonian is a DIAGONAL matrix with a Lindblad operator that is not
+            # (it == 1), or has a repeated eigenvalue and is written in a rotated basis, without dissipators (it == 2)
+            tdep = False
+            hkind = ["diagonal", "degenerate-rotated"][it - 1] if it in (1, 2) else rng.choice(["diagonal", "degenerate-rotated"])
+            diss = hkind == "diagonal" or rng.random() < 0.3
+            if hkind == "diagonal":
+                H0 = np.diag([rng.choice([-0.3, 0.7, 0.7, 1.1]) for _ in range(d)]).astype(complex)
+                l0 = np.diag(np.ones(d - 1), 1).astype(complex) + 0.2 * l0
+            else:
+                q_ = haar(rng, d)
+                H0 = q_ @ np.diag([0.8] * (d - 1) + [-0.4]).astype(complex) @ q_.conj().T
+                H0 = (H0 + H0.conj().T) / 2
         hfun = (lambda t: H0 + np.sin(1.3 * t) * H1) if tdep else (lambda t: H0)
         gfun = (lambda t: 0.2 + 0.1 * np.cos(t)) if tdep else (lambda t: 0.25)
         lfun = (lambda t: l0 + 0.5 * t * l1) if tdep else (lambda t: l0)
-        if diss:
+        if not tdep and (hkind != "generic" or rng.random() < 0.5):
+            # the time-independent system class
+            sysm = oqupy.System(H0, gammas=[0.25], lindblad_operators=[l0]) if diss else oqupy.System(H0)
+        elif diss:
             sysm = oqupy.TimeDependentSystem(hfun, gammas=[gfun], lindblad_operators=[lfun])
         else:
             sysm = oqupy.TimeDependentSystem(hfun)
@@ -393,7 +410,7 @@ def scenario_search(chk, n_cases):
             return gm * gm * (coth * np.cos(wm * t) - 1j * np.sin(wm * t))
         eps = 1e-9
         par = oqupy.TempoParameters(dt=dt, epsrel=eps, dkmax=None, subdiv_limit=None)
-        info = {"kind": "scenario", "d": d, "T": T, "mode": [wm, gm], "dt": dt, "n": n, "start": start, "time_dependent": tdep, "dissipative": diss,
+        info = {"kind": "scenario", "d": d, "T": T, "mode": [wm, gm], "dt": dt, "n": n, "start": start, "time_dependent": tdep, "dissipative": diss, "hamiltonian": hkind, "system_class": type(sysm).__name__,
                 "unique": unique, "route": route, "controls": ckind, "pre": sorted(pre), "post": sorted(post), "rotated_coupling": not np.allclose(V, np.eye(d))}
         try:
             bath = oqupy.Bath(O, oqupy.CustomCorrelations(C))
